@@ -199,11 +199,9 @@ impl Thread {
 
 impl Drop for ThreadPool {
     fn drop(&mut self) {
-        if let Some(mut recovery_thread) = self.recovery_thread.take() {
-            if let Some(thread) = recovery_thread.0.take() {
-                thread.join().unwrap();
-            }
-        }
+        // The recovery thread holds a sender to its own channel and so waits for panics for as long as it lives.
+        // Joining it would block forever, so it is detached instead, exactly as `stop` does.
+        self.recovery_thread = None;
 
         for thread in &mut *self.threads.lock().unwrap() {
             if let Some(thread) = thread.os_thread.take() {
